@@ -216,6 +216,14 @@ def shape_tag(size):
     return ','.join(tags)
 
 
+def marginal_above_half(cfg):
+    """Is the probability that a qubit suffers an X-type (or a Z-type) flip
+    above 1/2 for this configuration?"""
+    rx, ry, rz = NOISES[cfg['noise']]
+    p = cfg['p']
+    return p * max(rx + ry, rz + ry) > 0.5
+
+
 PRIORITY = ['construction_raised', 'decode_raised', 'binary_vector_of_length_2n',
             'correction_reproduces_syndrome', 'trivial_syndrome_trivial_correction',
             'caller_syndrome_not_modified', 'noise_tables_not_modified',
@@ -229,4 +237,6 @@ def finding_key(prop, rec, clauses):
     names = {c.split('@')[0] for c in clauses}
     first = next((c for c in PRIORITY if c in names), sorted(names)[0])
     css = 'deformed-code' if cfg.get('code_def') else 'plain-code'
-    return f"{prop}:{cfg['decoder']}@{cfg['code']}[{shape_tag(cfg['size'])};{css}]:{first}"
+    # above 1/2 the matching weights log((1-p)/p) are negative: a regime of its own
+    rate = ';flip-probability-above-half' if marginal_above_half(cfg) else ''
+    return f"{prop}:{cfg['decoder']}@{cfg['code']}[{shape_tag(cfg['size'])};{css}{rate}]:{first}"
